@@ -7,6 +7,7 @@
    a per-rule result that is combined (any worker panic kills the process, else any error is returned). *)
 From Coq Require Import List String Ascii Bool NArith.
 From Dae Require Import C04_Spec.
+From Dae.gen Require Import C04_Extracted.
 Import ListNotations.
 Open Scope string_scope.
 
@@ -47,25 +48,31 @@ Fixpoint join (sep : string) (l : list string) : string :=
 
 (* ---------- Param.String(compact=true, quoteVal=false), Function.String(true,false,omitEmpty=true) ---------- *)
 Definition param_print (p : param) : string :=
-  if p_key p =? "" then p_val p else p_key p ++ ":" ++ p_val p.
+  if p_key p =? "" then p_val p else p_key p ++ param_print_separator_src ++ p_val p.
 
 Definition out_print (o : func) : string :=
   (if f_not o then "!" else "") ++ f_name o ++
   match f_params o with
   | [] => ""
-  | ps => "(" ++ join "," (map param_print (firstn 5 ps) ++ (if Nat.ltb 5 (List.length ps) then ["..."] else [])) ++ ")"
+  | ps => "(" ++ join "," (map param_print (firstn function_print_limit_src ps)
+                          ++ (if Nat.ltb function_print_limit_src (List.length ps) then [function_print_ellipsis_src] else [])) ++ ")"
   end.
 
-(* ---------- AliasOptimizer ---------- *)
+(* ---------- AliasOptimizer (the two switch tables are extracted from the source: gen/C04_Extracted.v) ---------- *)
+Fixpoint assoc {A} (k : string) (l : list (string * A)) : option A :=
+  match l with
+  | [] => None
+  | (k', v) :: t => if k' =? k then Some v else assoc k t
+  end.
+
 Definition alias_param (fname : string) (p : param) : param :=
-  if fname =? "domain" then
-    {| p_key := (if (p_key p =? "") || (p_key p =? "domain") then "suffix"
-                 else if p_key p =? "contains" then "keyword" else p_key p);
+  if fname =? alias_key_function_src then
+    {| p_key := match assoc (p_key p) alias_domain_keys_src with Some k => k | None => p_key p end;
        p_val := p_val p |}
   else p.
 
 Definition alias_func (f : func) : func :=
-  let name := if f_name f =? "dport" then "port" else if f_name f =? "dip" then "ip" else f_name f in
+  let name := match assoc (f_name f) alias_fnames_src with Some n => n | None => f_name f end in
   {| f_name := name; f_not := f_not f; f_params := map (alias_param name) (f_params f) |}.
 
 Definition alias_rule (r : rule) : rule := {| r_funcs := map alias_func (r_funcs r); r_out := r_out r |}.
@@ -77,12 +84,6 @@ Record gs_entry := { gs_code : string; gs_domains : list gs_domain }.
 (* the textual form of a CIDR (netip.PrefixFrom(ip, bits).String()) is supplied with the data *)
 Record gi_entry := { gi_code : string; gi_inverse : bool; gi_cidrs : list string }.
 Record geodb := { db_sites : list (string * list gs_entry); db_ips : list (string * list gi_entry) }.
-
-Fixpoint assoc {A} (k : string) (l : list (string * A)) : option A :=
-  match l with
-  | [] => None
-  | (k', v) :: t => if k' =? k then Some v else assoc k t
-  end.
 
 Definition dat_filename (filename : string) : string :=
   if has_suffix ".dat" filename then filename else filename ++ ".dat".
@@ -216,7 +217,7 @@ Definition sort_funcs (r : rule) : rule :=
 
 Definition sort_params_func (f : func) : func :=
   {| f_name := f_name f; f_not := f_not f;
-     f_params := if (f_name f =? "ip") || (f_name f =? "sip")
+     f_params := if existsb (String.eqb (f_name f)) ip_sorted_functions_src
                  then stable_sort less_ip (f_params f) else stable_sort less_kv (f_params f) |}.
 Definition sort_params (r : rule) : rule :=
   {| r_funcs := map sort_params_func (r_funcs r); r_out := r_out r |}.
@@ -259,25 +260,98 @@ Definition dedup_func (f : func) : func :=
 Definition dedup_rule (r : rule) : rule := {| r_funcs := map dedup_func (r_funcs r); r_out := r_out r |}.
 Definition dedup_opt (rules : list rule) : list rule := map dedup_rule rules.
 
-(* ---------- the pipelines, and every intermediate stage (the harness observes each) ---------- *)
+(* ---------- the pipelines, and every intermediate stage (the harness observes each) ----------
+   The composition of each pipeline is read from the call sites (gen/C04_Extracted.v):
+   control/control_plane.go, component/dns/dns.go (request, response), component/daedns/router.go. *)
 Definition xmap {A B} (f : A -> B) (x : xres A) : xres B :=
   match x with XOk a => XOk (f a) | XErr => XErr | XCrash => XCrash end.
+Definition xbind {A B} (x : xres A) (f : A -> xres B) : xres B :=
+  match x with XOk a => f a | XErr => XErr | XCrash => XCrash end.
 
-(* control/control_plane.go: alias, dat, merge, dedup *)
-Definition traffic_stages (db : geodb) (rules : list rule) : list (xres (list rule)) :=
-  let s1 := alias_opt rules in
-  let s2 := dat_opt db s1 in
-  let s3 := xmap merge_sort_opt s2 in
-  let s4 := xmap dedup_opt s3 in
-  [XOk s1; s2; s3; s4].
-Definition traffic_pipeline (db : geodb) (rules : list rule) : xres (list rule) :=
-  xmap dedup_opt (xmap merge_sort_opt (dat_opt db (alias_opt rules))).
+Definition run_optimizer (db : geodb) (name : string) (rules : list rule) : xres (list rule) :=
+  if name =? "AliasOptimizer" then XOk (alias_opt rules)
+  else if name =? "DatReaderOptimizer" then dat_opt db rules
+  else if name =? "MergeAndSortRulesOptimizer" then XOk (merge_sort_opt rules)
+  else if name =? "DeduplicateParamsOptimizer" then XOk (dedup_opt rules)
+  else XErr.
 
-(* component/dns/dns.go (request and response), component/daedns/router.go: dat, merge, dedup *)
-Definition dns_stages (db : geodb) (rules : list rule) : list (xres (list rule)) :=
-  let s1 := dat_opt db rules in
-  let s2 := xmap merge_sort_opt s1 in
-  let s3 := xmap dedup_opt s2 in
-  [s1; s2; s3].
-Definition dns_pipeline (db : geodb) (rules : list rule) : xres (list rule) :=
-  xmap dedup_opt (xmap merge_sort_opt (dat_opt db rules)).
+(* ApplyRulesOptimizers: results after 1, 2, ... optimizers *)
+Fixpoint run_stages (db : geodb) (names : list string) (cur : xres (list rule)) : list (xres (list rule)) :=
+  match names with
+  | [] => []
+  | n :: t => let nxt := xbind cur (run_optimizer db n) in nxt :: run_stages db t nxt
+  end.
+Definition run_pipeline (db : geodb) (names : list string) (rules : list rule) : xres (list rule) :=
+  fold_left (fun cur n => xbind cur (run_optimizer db n)) names (XOk rules).
+
+Definition traffic_stages (db : geodb) (rules : list rule) := run_stages db traffic_pipeline_src (XOk rules).
+Definition traffic_pipeline (db : geodb) (rules : list rule) := run_pipeline db traffic_pipeline_src rules.
+Definition dns_stages (db : geodb) (rules : list rule) := run_stages db dns_request_pipeline_src (XOk rules).
+Definition dns_pipeline (db : geodb) (rules : list rule) := run_pipeline db dns_request_pipeline_src rules.
+Definition dns_response_pipeline (db : geodb) (rules : list rule) := run_pipeline db dns_response_pipeline_src rules.
+Definition daedns_pipeline (db : geodb) (rules : list rule) := run_pipeline db daedns_request_pipeline_src rules.
+
+(* ---------- lowering of the (optimised) AST to match sets, and the matcher scan ----------
+   component/routing/matcher_builder.go (RulesBuilder.Apply, groupParamValuesByKey) and the scan loop shared by
+   control/routing_matcher_userspace.go, component/dns/request_routing.go, response_routing.go.
+   One match set per (condition, key) group; a parser that splits a group further (port, qtype, pname: one set
+   per value chained by OR) or folds it (ip: one LPM set) is not distinguished here. *)
+Inductive ms_out := MOr | MAnd | MFinal (o : func).
+Record matchset := { m_fname : string; m_key : string; m_vals : list string; m_not : bool; m_out : ms_out }.
+
+Fixpoint group_add (k v : string) (gs : list (string * list string)) : list (string * list string) :=
+  match gs with
+  | [] => [(k, [v])]
+  | (k', vs) :: t => if k' =? k then (k', (vs ++ [v])%list) :: t else (k', vs) :: group_add k v t
+  end.
+Definition group_params (ps : list param) : list (string * list string) :=
+  fold_left (fun gs p => group_add (p_key p) (p_val p) gs) ps [].
+
+Fixpoint lower_groups (f : func) (last_func : bool) (out : func) (gs : list (string * list string)) : list matchset :=
+  match gs with
+  | [] => []      (* a condition without values produces NO match set *)
+  | (k, vs) :: t =>
+      let o := match t with [] => if last_func then MFinal out else MAnd | _ => MOr end in
+      {| m_fname := f_name f; m_key := k; m_vals := vs; m_not := f_not f; m_out := o |} :: lower_groups f last_func out t
+  end.
+Fixpoint lower_funcs (fs : list func) (out : func) : list matchset :=
+  match fs with
+  | [] => []
+  | f :: t => (lower_groups f (match t with [] => true | _ => false end) out (group_params (f_params f))
+               ++ lower_funcs t out)%list
+  end.
+Definition lower (rules : list rule) : list matchset :=
+  flat_map (fun r => lower_funcs (r_funcs r) (r_out r)) rules.
+
+Section Scan.
+  Variable packet : Type.
+  Variable D : Type.
+  Variable atom_sem : string -> string -> string -> packet -> bool.
+  Variable out_sem : func -> option D.
+
+  Definition ms_eval (pk : packet) (m : matchset) : bool :=
+    existsb (fun v => atom_sem (m_fname m) (m_key m) v pk) (m_vals m).
+
+  (* goodSubrule / badRule / must are the three loop variables of Match.
+     Result: None = "no match set hit" (error); Some (None, must) = the fallback match set hit. *)
+  Fixpoint scan (ms : list matchset) (pk : packet) (good bad must : bool) : option (option D * bool) :=
+    match ms with
+    | [] => if bad then None else Some (None, must)   (* the fallback match set comes last; it is a rule tail too *)
+    | m :: t =>
+        let good := if bad || good then good else ms_eval pk m in
+        match m_out m with
+        | MOr => scan t pk good bad must
+        | MAnd => scan t pk false (bad || Bool.eqb good (m_not m)) must
+        | MFinal o =>
+            if negb (bad || Bool.eqb good (m_not m)) then
+              match out_sem o with
+              | Some d => Some (Some d, must)
+              | None => scan t pk false false true
+              end
+            else scan t pk false false must
+        end
+    end.
+
+  Definition compiled_decision (rules : list rule) (pk : packet) : option (option D * bool) :=
+    scan (lower rules) pk false false false.
+End Scan.
